@@ -140,10 +140,109 @@ impl SyscallStubs for WorldStubs {
             spl_token_2022::processor::Processor::process(&pid, &callee_infos, &instruction.data)
         } else if pid == system_program::ID {
             system_process(&callee_infos, &instruction.data)
+        } else if pid == marginfi::constants::KAMINO_PROGRAM_ID {
+            kamino_process(&callee_infos, &instruction.data)
         } else {
             Err(ProgramError::IncorrectProgramId)
         }
     }
+}
+
+// ---------------------------------------------------------------------------------------------
+// Kamino Lend stand-in. NOT the code under test and not a model of Kamino's internals: the two instructions marginfi calls,
+// with Kamino's documented effect on the accounts marginfi reads afterwards (obligation collateral, reserve supplies, token
+// balances), computed with exact integer arithmetic: collateral = floor(liquidity x total collateral / total liquidity),
+// liquidity = floor(collateral x total liquidity / total collateral), total liquidity = available + borrowed - fees
+// (the U68F60 fields exactly). A test can make it misbehave by a few units (KAMINO_SKEW_*) to see whether marginfi's own
+// after-the-fact checks notice.
+// ---------------------------------------------------------------------------------------------
+/// added to the collateral the stand-in credits to / takes from the obligation
+pub static KAMINO_SKEW_COLLATERAL: AtomicI64 = AtomicI64::new(0);
+/// added to the liquidity the stand-in pays out on a withdrawal
+pub static KAMINO_SKEW_LIQUIDITY: AtomicI64 = AtomicI64::new(0);
+pub static KAMINO_CALLS: AtomicU64 = AtomicU64::new(0);
+
+fn tok_amount_adjust(ai: &AccountInfo, delta: i128) -> ProgramResult {
+    use solana_program::program_pack::Pack;
+    let mut d = ai.try_borrow_mut_data()?;
+    if d.len() < spl_token::state::Account::LEN {
+        return Err(ProgramError::InvalidAccountData);
+    }
+    let mut a = spl_token::state::Account::unpack_from_slice(&d[..spl_token::state::Account::LEN])?;
+    let v = a.amount as i128 + delta;
+    if v < 0 || v > u64::MAX as i128 {
+        return Err(ProgramError::InsufficientFunds);
+    }
+    a.amount = v as u64;
+    spl_token::state::Account::pack_into_slice(&a, &mut d[..spl_token::state::Account::LEN]);
+    Ok(())
+}
+
+fn kamino_process(accounts: &[AccountInfo], data: &[u8]) -> ProgramResult {
+    use kamino_mocks::state::{MinimalObligation, MinimalReserve};
+    const DEPOSIT: [u8; 8] = [216, 224, 191, 27, 204, 151, 102, 175];
+    const WITHDRAW: [u8; 8] = [235, 52, 119, 152, 149, 197, 20, 7];
+    KAMINO_CALLS.fetch_add(1, Ordering::Relaxed);
+    if data.len() < 16 || accounts.len() < 14 {
+        return Err(ProgramError::InvalidInstructionData);
+    }
+    let amount = rd_u64(data, 8)? as i128;
+    let (owner, obligation, market, reserve) = (&accounts[0], &accounts[1], &accounts[2], &accounts[4]);
+    let user_liq = &accounts[9];
+    let is_deposit = data[..8] == DEPOSIT;
+    if !is_deposit && data[..8] != WITHDRAW {
+        return Err(ProgramError::InvalidInstructionData);
+    }
+    let supply_vault = if is_deposit { &accounts[6] } else { &accounts[8] };
+    if !owner.is_signer {
+        return Err(ProgramError::MissingRequiredSignature);
+    }
+    if *obligation.owner != marginfi::constants::KAMINO_PROGRAM_ID || *reserve.owner != marginfi::constants::KAMINO_PROGRAM_ID {
+        return Err(ProgramError::IllegalOwner);
+    }
+    let mut od = obligation.try_borrow_mut_data()?;
+    let mut rd = reserve.try_borrow_mut_data()?;
+    let ob: &mut MinimalObligation = bytemuck::from_bytes_mut(&mut od[8..8 + std::mem::size_of::<MinimalObligation>()]);
+    let rs: &mut MinimalReserve = bytemuck::from_bytes_mut(&mut rd[8..8 + std::mem::size_of::<MinimalReserve>()]);
+    if ob.owner != *owner.key || ob.deposits[0].deposit_reserve != *reserve.key || ob.lending_market != *market.key
+        || rs.lending_market != *market.key || rs.supply_vault != *supply_vault.key
+    {
+        return Err(ProgramError::Custom(6006)); // some Kamino "invalid account input"
+    }
+    if rs.slot < CLOCK_SLOT.load(Ordering::SeqCst) {
+        return Err(ProgramError::Custom(6009)); // ReserveStale
+    }
+    // exact supplies at scale 2^60
+    let sf = |b: [u8; 16]| -> i128 { u128::from_le_bytes(b) as i128 };
+    let total_liq_sf: i128 = ((rs.available_amount as i128) << 60) + sf(rs.borrowed_amount_sf) - sf(rs.accumulated_protocol_fees_sf)
+        - sf(rs.accumulated_referrer_fees_sf) - sf(rs.pending_referrer_fees_sf);
+    let total_col: i128 = rs.mint_total_supply as i128;
+    use num_bigint::BigInt;
+    let to_i128 = |b: BigInt| -> Result<i128, ProgramError> { i128::try_from(b).map_err(|_| ProgramError::ArithmeticOverflow) };
+    if is_deposit {
+        let col = if total_col == 0 || total_liq_sf <= 0 { amount } else {
+            to_i128((BigInt::from(amount) << 60u32) * BigInt::from(total_col) / BigInt::from(total_liq_sf))?
+        } + KAMINO_SKEW_COLLATERAL.load(Ordering::SeqCst) as i128;
+        if col < 0 { return Err(ProgramError::ArithmeticOverflow); }
+        tok_amount_adjust(user_liq, -amount)?;
+        tok_amount_adjust(supply_vault, amount)?;
+        rs.available_amount = u64::try_from(rs.available_amount as i128 + amount).map_err(|_| ProgramError::ArithmeticOverflow)?;
+        rs.mint_total_supply = u64::try_from(total_col + col).map_err(|_| ProgramError::ArithmeticOverflow)?;
+        ob.deposits[0].deposited_amount = u64::try_from(ob.deposits[0].deposited_amount as i128 + col).map_err(|_| ProgramError::ArithmeticOverflow)?;
+    } else {
+        let col = amount + KAMINO_SKEW_COLLATERAL.load(Ordering::SeqCst) as i128;
+        if col < 0 || col > ob.deposits[0].deposited_amount as i128 || total_col == 0 {
+            return Err(ProgramError::InsufficientFunds);
+        }
+        let liq = to_i128((BigInt::from(amount) * BigInt::from(total_liq_sf) / BigInt::from(total_col)) >> 60u32)? + KAMINO_SKEW_LIQUIDITY.load(Ordering::SeqCst) as i128;
+        if liq < 0 || liq > rs.available_amount as i128 { return Err(ProgramError::InsufficientFunds); }
+        tok_amount_adjust(supply_vault, -liq)?;
+        tok_amount_adjust(user_liq, liq)?;
+        rs.available_amount = (rs.available_amount as i128 - liq) as u64;
+        rs.mint_total_supply = (total_col - col) as u64;
+        ob.deposits[0].deposited_amount = (ob.deposits[0].deposited_amount as i128 - col) as u64;
+    }
+    Ok(())
 }
 
 fn rd_u32(d: &[u8], o: usize) -> Result<u32, ProgramError> {
